@@ -160,10 +160,18 @@ def progress_violation(doc, impl_out):
     if len(pages) > bound:
         return f'{len(pages)} pages for {n_lines} lines'
     seen = set()
+    shown = set()
     previous_blank = False
-    for page in pages:
+    for number, page in enumerate(pages):
         blank = page[3] == 'true'
         items = set(frag_lines(page[-1], [], by_id, False)) | box_ids(page[-1], set())
+        # a page that CSS asked for (forced break or change of page name before or after it) may hold empty boxes only
+        asked = (number > 0 and (pages[number - 1][6] != 'any' or pages[number - 1][4] != page[4])) or (
+            page[6] != 'any' or (number + 1 < len(pages) and pages[number + 1][4] != page[4]))
+        if (number > 0 and not blank and not asked and only_flow_blocks(page[-1], by_id)
+                and not (visible(page[-1], by_id) - shown)):
+            return f'page {page[1]} shows nothing (no line, no box with a height, padding or border) that is new'
+        shown |= visible(page[-1], by_id)
         if not blank and not (items - seen):
             return f'page {page[1]} shows nothing new'
         if blank and previous_blank:
@@ -171,6 +179,31 @@ def progress_violation(doc, impl_out):
         seen |= items
         previous_blank = blank
     return None
+
+
+def only_flow_blocks(frag, by_id):
+    """The fragment tree holds in-flow blocks only (no paragraph, placeholder, float or absolutely positioned box: a
+    page made for an empty float or for the continuation of an out-of-flow box is not judged by the clause below)."""
+    if frag[0] != 'b' or by_id[int(frag[1])][0]['pos'] != 'static':
+        return False
+    return all(only_flow_blocks(kid, by_id) for kid in frag[-1])
+
+
+def visible(frag, by_id, out=None):
+    """What a fragment tree shows: its lines, and the boxes that take room of their own (height of a childless box,
+    padding, border) - an empty box with margins only shows nothing."""
+    out = set() if out is None else out
+    if frag[0] == 'ph':
+        return out
+    if frag[0] == 'p':
+        out.update(('line', int(frag[1]), int(i)) for i, _ in frag[-1])
+    pt, pb, bt, bb, h = (sx.rat(x) for x in frag[6:11])
+    if pt or pb or bt or bb or (h > 0 and not frag[-1]):
+        out.add(('box', int(frag[1])))
+    if frag[0] == 'b':
+        for kid in frag[-1]:
+            visible(kid, by_id, out)
+    return out
 
 
 def box_ids(frag, out):
@@ -197,7 +230,7 @@ def fit_violation(doc, impl_out):
         line of the paragraph, or box-decoration-break: clone) fits as well, same exemption;
     (4) a box continued on the next page that keeps its bottom padding/border (clone) has its bottom border edge
         inside the page, unless it lies on the chain of first content of the page and holds at most one leaf (not judged:
-        boxes with a fixed height inside, documents with floats: the forced first content has any size / is pushed
+        boxes with a fixed height inside, documents with out-of-flow boxes: the forced first content has any size / is pushed
         down by any amount).
     Out-of-flow subtrees are not judged (they are laid out with page_is_empty). Documents with box-decoration-break:
     clone and a negative margin-bottom are not judged (known finding clone-negative-margin-bottom)."""
@@ -238,9 +271,9 @@ def fit_violation(doc, impl_out):
     for number, page in enumerate(pages):
         placed = [False]
         continued = flow_ids(pages[number + 1][-1], set()) if number + 1 < len(pages) else set()
-        # floats push the (forced) first content of a page, or a box that clears them, down by any amount: clause (4)
-        # is judged on documents without floats only
-        pushed = any(box['pos'] == 'float' for box, _ in by_id.values())
+        # floats push the (forced) first content of a page, or a box that clears them, down by any amount, and a box
+        # holding only placeholders is kept where it is: clause (4) is judged on documents without out-of-flow boxes
+        pushed = any(box['pos'] != 'static' for box, _ in by_id.values())
 
         def walk(frag, top, first_chain):
             if frag[0] == 'ph':
@@ -300,7 +333,7 @@ def fit_violation(doc, impl_out):
 
 CORPUS = {
     'out-of-flow-lost-at-document-end': 'oof_lost_at_end',
-    'nested-out-of-flow-in-postponed-float': 'oof_nested_float_postponed',
+    'wrapper-of-empty-box-opens-empty-page': 'oof_empty_wrapper_page',        # filed under C03
 }
 
 # finding id -> (corpus file, commit that repaired it)
@@ -310,6 +343,9 @@ REGRESSIONS = {
     'float-zero-height-to-origin': ('oof_zero_height_float', '50ab141'),
     'cut-float-dropped-by-later-float': ('oof_float_dropped_by_later_float', 'cdccac3'),
     'nested-placeholder-survives-abort': ('oof_nested_abs_abort', 'e3ac9f0'),
+    'nested-out-of-flow-in-postponed-float': ('oof_nested_float_postponed', '0d665d0'),
+    'zero-height-float-ignores-other-floats': ('oof_zero_height_float_inside', '1bc67ce'),
+    'earlier-break-keeps-bottom-decoration': ('oof_earlier_break_cut_block', '24ce8bf'),
 }
 
 
@@ -342,7 +378,7 @@ def replay_corpus(name):
     """Violation text while the implementation still fails on the corpus document, else None."""
     doc, data = corpus_doc(name)
     out = real_line(doc)
-    return conservation_violation(doc, out) or duplication_violation(doc, out)
+    return conservation_violation(doc, out) or duplication_violation(doc, out) or progress_violation(doc, out)
 
 
 def replay_regression(name):
